@@ -52,7 +52,7 @@ use crate::{
         recovery::WalRecuperator,
     },
     multithreading::{
-        coordinator::{TransactionCoordinator, TransactionError},
+        coordinator::{TransactionCoordinator, TransactionError, TransactionState},
         runner::{BoxError, SharedTaskRunner, TaskError},
     },
     runtime::{
@@ -426,6 +426,16 @@ impl Database {
 
     /// Flushes all pending writes to disk.
     pub fn flush(&self) -> DatabaseResult<()> {
+        // A checkpoint drops the log. While a transaction is open, its records are what rolls it
+        // back after a crash, so the checkpoint waits and only the log is forced.
+        if !self
+            .coordinator
+            .transaction_set(TransactionState::Active)
+            .is_empty()
+        {
+            self.pager.write().flush_wal()?;
+            return Ok(());
+        }
         self.pager.write().flush()?;
         Ok(())
     }
